@@ -22,10 +22,10 @@ def run(tier, seed):
     core.run_models(ev, MC_RUNS(quick))
     conf = core.Conformance("C01", ev, wd)
     # 2. B1: 8-bit digits (every carry / quotient-estimate corner is frequent)
-    cases, st8 = gen_bn.gen_cases(8, 8, rng, tier)
+    cases, st8 = gen_bn.gen_cases(8, 8, rng, tier, cap=18)
     conf.run("w8", "w8bn", "bn", ["drv_bn.c"], cases, "trace/BnTrace.tla", nontrivial=nontrivial)
     # 3. B2: the shipped 64-bit configuration
-    cases, st64 = gen_bn.gen_cases(64, 16, rng, tier)
+    cases, st64 = gen_bn.gen_cases(64, 16, rng, tier, cap=34)
     conf.run("std256", "std256", "bn", ["drv_bn.c"], cases, "trace/BnTrace.tla", nontrivial=nontrivial)
     # 4. call HISTORIES over numbered slots against the library-as-one-machine (model/Relic): frame condition,
     #    aliasing as slot choice, error outcomes, sticky code, usability after an error
